@@ -159,9 +159,16 @@ func (p *Program) Assemble() ([]bpf.Instruction, error) {
 
 	// Inserting an instruction moves the destinations of the jumps resolved before it.
 	// Repeat until a pass inserts nothing; the skips computed by that pass are final.
-	for {
+	//
+	// The first pass spreads the inserted instructions (see findInsertAfter). Instructions
+	// inserted that way can push each other out of the reach of their jumps again, without
+	// end if too many of them compete for the same place. Later passes therefore insert
+	// directly behind the jump that needs the instruction, where nothing but the other branch
+	// of the same jump can move it: every jump gets at most one more instruction per branch
+	// and the resolution comes to an end.
+	for pass := 0; ; pass++ {
 		size := len(p.instructions)
-		if err := p.resolveJumps(); err != nil {
+		if err := p.resolveJumps(pass == 0); err != nil {
 			return nil, err
 		}
 		if len(p.instructions) == size {
@@ -170,18 +177,18 @@ func (p *Program) Assemble() ([]bpf.Instruction, error) {
 	}
 }
 
-func (p *Program) resolveJumps() error {
+func (p *Program) resolveJumps(spread bool) error {
 	for _, jump := range p.jumps {
 		// This is safe since we are only accessing instructions that were inserted as bpf.JumpIf.
 		jumpInst := p.instructions[jump.index].(bpf.JumpIf)
 
-		skip, err := p.resolveLabel(jump, jump.trueLabel)
+		skip, err := p.resolveLabel(jump, jump.trueLabel, spread)
 		if err != nil {
 			return err
 		}
 		jumpInst.SkipTrue = skip
 
-		skip, err = p.resolveLabel(jump, jump.falseLabel)
+		skip, err = p.resolveLabel(jump, jump.falseLabel, spread)
 		if err != nil {
 			return err
 		}
@@ -219,7 +226,7 @@ func (p *Program) isNext(jump JumpIf, label Label) bool {
 }
 
 // resolveLabel resolves the label to a short jump.
-func (p *Program) resolveLabel(jump JumpIf, label Label) (uint8, error) {
+func (p *Program) resolveLabel(jump JumpIf, label Label, spread bool) (uint8, error) {
 	n, err := p.nextDest(jump, label)
 	if err != nil {
 		return 0, err
@@ -229,7 +236,10 @@ func (p *Program) resolveLabel(jump JumpIf, label Label) (uint8, error) {
 
 	// BPF does not support long conditional jumps.
 	if skipN > math.MaxUint8 {
-		insertAfter := findInsertAfter(p.jumps, jump)
+		insertAfter := jump
+		if spread {
+			insertAfter = findInsertAfter(p.jumps, jump)
+		}
 
 		// If the jump destination is a return instruction, copy it and add an early return,
 		// if not, insert a long jump.
